@@ -120,7 +120,7 @@ Section Wf.
   Lemma gen_call_ok fc lf bf kws il t : gen_call fc lf bf kws = Ok t -> forallb (py_ok pynorm il) t = true.
   Proof.
     unfold gen_call. destruct (nodupb kws) eqn:E; [|discriminate]. destruct (disjb kws (extras fc lf bf)) eqn:D; [|discriminate].
-    cbn [andb]. intros H. injection H as <-. cbn [forallb py_ok andb]. rewrite andb_true_r.
+    cbn [andb]. destruct (reserved_free kws); [|discriminate]. intros H. injection H as <-. cbn [forallb py_ok andb]. rewrite andb_true_r.
     apply nodupb_map. apply nodupb_NoDup. apply nodup_app; [now apply nodupb_NoDup|apply extras_nodup|exact (disjb_spec _ _ D)].
   Qed.
 
